@@ -69,7 +69,11 @@ From TS Require Import model.Barrier proofs.BarrierProofs proofs.BarrierInst.
 
 (* ASYNCHRONOUS take: any fault in a snapshot's plan (some rank's payload I/O fails, or the leader's metadata
    write fails) - in every reachable state no rank's wait() has returned normally, every rank that terminated has
-   raised, and the metadata is not written.  All world sizes, interleavings, histories with distinct prefixes. *)
+   raised, and the metadata is not written.  All world sizes, interleavings, histories with distinct prefixes.
+   The barrier model (model/Barrier.v) includes store.wait TIMEOUTS (a rank about to wait may give up at any time,
+   also spuriously; the exception is caught and reported like any other) and ranks ABSENT from the protocol (they
+   raised inside async_take itself): schedules [sch] contain arbitrarily many timeout choices and histories [h] any
+   set of absent ranks; the statement is the one of the timeout-free model and holds unchanged. *)
 Theorem C03_async_error_reaches_everyone : forall st0 h sch i x,
   fresh st0 h -> distinct_prefixes h ->
   nth_error (g_insts (grun (ginit st0 h) sch)) i = Some x ->
@@ -79,6 +83,23 @@ Theorem C03_async_error_reaches_everyone : forall st0 h sch i x,
   i_meta x = false.
 Proof. exact error_reaches_everyone. Qed.
 Print Assumptions C03_async_error_reaches_everyone.
+
+(* The same with the hypothesis generalised: a fault in the plan, OR a rank that failed in the foreground (inside
+   async_take: a storage write that fails while staging still overlaps I/O - such a rank has no background thread
+   and never arrives at the barrier), OR a timeout of the leader's wait for its peers.  The previous theorem is the
+   first disjunct.  (A timeout of a PEER's wait in depart is not in the list and cannot be: after the leader has read
+   that peer's key the snapshot may still be committed - C13_timeout_error_reaches_everyone_refuted; what C03
+   demands, "no rank reports success for a snapshot that is not committed", is C02_async_return_implies_committed
+   and holds regardless.) *)
+Theorem C03_async_error_reaches_everyone_gen : forall st0 h sch i x,
+  fresh st0 h -> distinct_prefixes h ->
+  nth_error (g_insts (grun (ginit st0 h) sch)) i = Some x ->
+  has_fault x \/ has_absent x \/ i_tmo x 0%nat = true ->
+  (forall r, (r < i_W x)%nat -> i_pcs x r <> PDone) /\
+  (forall r, (r < i_W x)%nat -> terminated (i_pcs x r) = true -> i_pcs x r = PRaised) /\
+  i_meta x = false.
+Proof. exact error_reaches_everyone_gen. Qed.
+Print Assumptions C03_async_error_reaches_everyone_gen.
 
 (* Non-vacuity: rank 1's only payload write fails; rank 0 finishes and waits in the barrier for ever: nobody
    returns, no metadata.  And: rank 0's metadata write fails; rank 1 is held in the second barrier. *)
